@@ -117,7 +117,7 @@ def check_stack(ctx, cx, stack, tag, corr=True):
         ctx.fail('leftover', 'VmStack.deserialize left data unread', inp, [sl.remaining_bits, sl.remaining_refs], [0, 0])
         return
     if corr:
-        ctx.expect_model(ser_line, f'ok {c1.hash.hex()}', tag)
+        ctx.expect_model(ser_line, f'ok {c1.hash.hex()} {snap1}', tag)
         nodes, root = V.flatten(c1)
         ctx.expect_model(f'vmdeser {G.dag_line(nodes)[8:]} {root}', f'ok {got}', tag)
 
